@@ -7,9 +7,13 @@ restricted to expressions.
     if s.Condition != nil { cond = rewriteWithoutTimeDimensions() + " AND " + cond }
     expr := ParseExpr(cond);  s.Condition = CReduce(expr, nil)
 
-The rewrite is bottom-up: children first, then the node. A binary node whose (already rewritten)
-left operand *prints* as `time` becomes `true`; every call becomes `true`; the result is printed
-and parsed again.
+The rewrite is bottom-up: children first, then the node. A binary node one of whose (already
+rewritten) operands is a reference to time — `isTimeRef`: a `*VarRef` with
+`strings.ToLower(Val) == "time"`, whatever its type annotation, the test `conditionExpr` uses —
+becomes `true`; everything else, calls included, is kept (the arguments of a call are visited);
+the result is printed and parsed again.
+(Before the fixes 51161c4 / 86fc254 of /repo the test was "the left operand prints as `time`",
+and every call became `true`.)
 -/
 namespace InfluxQL
 open Gen
@@ -24,16 +28,21 @@ structure Window where
 /-- The text `time`. -/
 def timeText : Str := ['t', 'i', 'm', 'e']
 
-/-- The function passed to `RewriteFunc`, applied bottom-up as `Rewrite` does. The arguments of a
-call are rewritten too, but the call is then replaced as a whole. -/
-def rewriteNoTime : Expr → Expr
-  | .binary op l r =>
-    let l' := rewriteNoTime l
-    let r' := rewriteNoTime r
-    if l'.print = timeText then .boolean true else .binary op l' r'
-  | .paren e => .paren (rewriteNoTime e)
-  | .call _ _ => .boolean true
-  | e => e
+mutual
+  /-- The function passed to `RewriteFunc`, applied bottom-up as `Rewrite` does (`Rewrite` descends
+  into binary nodes, parentheses and call arguments). -/
+  def rewriteNoTime (tbl : List (Char × Char)) : Expr → Expr
+    | .binary op l r =>
+      let l' := rewriteNoTime tbl l
+      let r' := rewriteNoTime tbl r
+      if isTimeRef tbl l' ∨ isTimeRef tbl r' then .boolean true else .binary op l' r'
+    | .paren e => .paren (rewriteNoTime tbl e)
+    | .call name args => .call name (rewriteArgs tbl args)
+    | e => e
+  def rewriteArgs (tbl : List (Char × Char)) : List Expr → List Expr
+    | [] => []
+    | a :: rest => rewriteNoTime tbl a :: rewriteArgs tbl rest
+end
 
 def timeVar : Expr := .varRef timeText .Unknown
 
@@ -46,17 +55,17 @@ def boundsText (w : Window) : Str :=
   ['\'', ' ', 'A', 'N', 'D', ' ', 't', 'i', 'm', 'e', ' ', '<', ' ', '\''] ++ formatRFC3339Nano w.stop ++ ['\'']
 
 /-- The text handed to the parser. -/
-def setTimeRangeText (cond : Option Expr) (w : Window) : Str :=
+def setTimeRangeText (tbl : List (Char × Char)) (cond : Option Expr) (w : Window) : Str :=
   match cond with
   | none => boundsText w
-  | some c => (rewriteNoTime c).print ++ [' ', 'A', 'N', 'D', ' '] ++ boundsText w
+  | some c => (rewriteNoTime tbl c).print ++ [' ', 'A', 'N', 'D', ' '] ++ boundsText w
 
 def nilRCtx (fa : FloatArith) : RCtx := { valuer := none, fa := fa }
 
 /-- `SetTimeRange(start, end)`: the new condition, or the parse error (condition unchanged). -/
 def setTimeRange (fa : FloatArith) (tbl : List (Char × Char)) (cond : Option Expr) (w : Window) :
     Except Fail Expr :=
-  match parseExprText (setTimeRangeText cond w) [] tbl with
+  match parseExprText (setTimeRangeText tbl cond w) [] tbl with
   | .error f => .error f
   | .ok e => .ok (CReduce (nilRCtx fa) e)
 
